@@ -80,8 +80,9 @@ def real_unparse(data, result_name="result"):
         return "UNPARSE-ERR " + type(e).__name__
 
 
-def real_analyze(data):
-    """'OK <verdict> <sorted findings>' | 'ERR' (no decompile) | 'RAISED <type>' (analysis failed)"""
+def real_analyze(data, analyzer=None):
+    """'OK <verdict> <sorted findings>' | 'ERR' (no decompile) | 'RAISED <type>' (analysis failed);
+    analyzer = an Analyzer with an explicit list of analyses (default: fickling's default instance)"""
     from fickling.analysis import check_safety
     from fickling.fickle import Pickled
     try:
@@ -93,7 +94,7 @@ def real_analyze(data):
     except Exception:
         return "ERR"
     try:
-        res = check_safety(p)
+        res = check_safety(p, analyzer=analyzer) if analyzer is not None else check_safety(p)
         sev = res.severity.name
         fs = sorted("(%s %s %s)" % (r.analysis_name, r.severity.name, wire(trig(r.trigger))) for r in res.results)
     except RecursionError:
